@@ -11,8 +11,12 @@ MC          : PermHarden_MC — the four triggers transcribed from the code, run
 spec -> code: PermHarden_Export enumerates kind x uid class x gid class x every mode 0..4095; each chunk
               becomes the contents of a fake package pushed through a REAL MergeEngine.install() with the
               default plugin triggers, pre_merge() executed on a scratch offset.
-code -> spec: seeded random mixed content sets (all kinds, biased modes, nested paths) through install and
-              replace engines, with and without detect_world_writable(fix_perms=True).
+code -> spec: seeded random mixed content sets (all kinds, biased modes, nested paths, names with % { } format
+              characters) through install and replace engines, with and without detect_world_writable(fix_perms=True).
+Every run goes through the engine's real pre_merge hook order; the observer rotates over the engine default, a
+null output and the two interpolating outputs (file_handle_output, formatter_output), and half of the runs also
+carry the ebuild format's pre_merge triggers of a package with pkg_preinst (preinst_contents_reset rescans the
+image - the rescanned set is what gets merged - and FixImageSymlinks), registered as ebuild_built does.
 All observations (new_cset before / after pre_merge) are judged by PermHarden_Trace.
 
 Carve-outs: the mode of a symlink is never applied by the merge (fs/ops.ensure_perms), so Safe does not
@@ -88,11 +92,30 @@ class World:
         out.sort(key=lambda d: d["loc"])
         return out
 
-    def run(self, entries, mode="install", fixww=False, observer="default"):
-        """Push `entries` through a real engine's pre_merge; returns (ins, outs, raised)."""
+    def observer(self, kind):
+        """default: the engine's own; explicit: null output; file / formatter: the interpolating outputs the
+        command line tools use (messages go through `msg % args`)."""
+        import io
+
+        from snakeoil.formatters import PlainTextFormatter
+
         from pkgcore.operations import observer as obs
 
-        o = None if observer == "default" else obs.repo_observer(obs.null_output())
+        if kind == "default":
+            return None
+        if kind == "explicit":
+            return obs.repo_observer(obs.null_output())
+        if kind == "file":
+            return obs.repo_observer(obs.file_handle_output(io.StringIO()))
+        if kind == "formatter":
+            return obs.repo_observer(obs.formatter_output(PlainTextFormatter(io.BytesIO())))
+        raise tlc.MachineryError(f"unknown observer kind {kind}")
+
+    def run(self, entries, mode="install", fixww=False, observer="default", fmt=False):
+        """Push `entries` through a real engine's pre_merge; returns (ins, outs, raised).
+        fmt: also register the ebuild format's pre_merge triggers the way ebuild_built.generic_format_triggers
+        does for a package with pkg_preinst (preinst_contents_reset rescans the image, FixImageSymlinks)."""
+        o = self.observer(observer)
         self.n += 1
         base = mktmp(f"c23-{self.n}")
         offset, tmp = os.path.join(base, "root"), os.path.join(base, "tmp")
@@ -102,8 +125,19 @@ class World:
         class Pkg:
             pass
 
+        world = self
+
+        class Parent:
+            def scan_contents(self, location):
+                # the image after pkg_preinst: the same entries, scanned afresh
+                return world.contents.contentsSet(world.mk(e) for e in entries)
+
+        class FormatOp:
+            env = {"D": os.path.join(base, "image")}
+
         new = Pkg()
         new.contents = self.contents.contentsSet(self.mk(e) for e in entries)
+        new._parent = Parent()
         if mode == "install":
             eng = self.engine.MergeEngine.install(tmp, new, offset=offset, observer=o)
         else:
@@ -112,6 +146,11 @@ class World:
             eng = self.engine.MergeEngine.replace(tmp, old, new, offset=offset, observer=o)
         if fixww:
             self.triggers.detect_world_writable(fix_perms=True).register(eng)
+        if fmt:
+            from pkgcore.ebuild import triggers as et
+
+            et.preinst_contents_reset(FormatOp()).register(eng)
+            et.FixImageSymlinks(FormatOp()).register(eng)
         ins = self.project(eng.csets["new_cset"], offset)
         raised = ""
         try:
@@ -126,7 +165,7 @@ class World:
 
 
 def random_entries(r_, n):
-    names = ["usr", "bin", "lib", "x y", "etc", "s", "é"]
+    names = ["usr", "bin", "lib", "x y", "etc", "s", "é", "100%", "%s", "%(a)s", "{}", "{0}", "%%", "a%d"]
     ents, seen = [], set()
     while len(ents) < n:
         loc = "/" + "/".join(r_.choice(names) for _ in range(r_.randint(1, 4)))
@@ -175,20 +214,20 @@ def run(ck):
             j = v["i"]
             a = i_[j - 1] if j >= 1 else None
             b = o_[j - 1] if 1 <= j <= len(o_) else None
-            ck.violation(v["clause"], dict(engine=m, fixww=f, observer=r["observer"], raised=r["raised"], kind=a and a["kind"], mode_in=a and a["m"], uid=a and a["u"],
+            ck.violation(v["clause"], dict(engine=m, fixww=f, observer=r["observer"], format_triggers=r["fmt"], raised=r["raised"], kind=a and a["kind"], mode_in=a and a["m"], uid=a and a["u"],
                                            gid=a and a["g"], entry=a, observed=b,
                                            cset=i_ if len(i_) <= 40 or a is None else [a]))
         runs.clear()
 
-    def record(ents, mode, fixww, observer="default"):
-        ins, outs, raised = w.run(ents, mode=mode, fixww=fixww, observer=observer)
+    def record(ents, mode, fixww, observer="default", fmt=False):
+        ins, outs, raised = w.run(ents, mode=mode, fixww=fixww, observer=observer, fmt=fmt)
         if len(ins) != len(ents):
             raise tlc.MachineryError("engine's new_cset does not hold the package contents")
-        runs.append(dict(tid=next_tid[0], fixww=fixww, mode=mode, observer=observer, raised=raised, ins=ins, outs=outs))
+        runs.append(dict(tid=next_tid[0], fixww=fixww, mode=mode, observer=observer, fmt=fmt, raised=raised, ins=ins, outs=outs))
         next_tid[0] += 1
         if raised and observer == "default":
             # the stage died (verdict StageCompletes); judge the hardening itself with an explicit observer
-            return record(ents, mode, fixww, "explicit")
+            return record(ents, mode, fixww, "explicit", fmt)
         ck.count(len(ins))
         for a, b in zip(ins, outs):
             if a != b:
@@ -196,7 +235,7 @@ def run(ck):
 
     if ck.replay_case:
         d = ck.replay_case["detail"]
-        record(d["cset"], d["engine"], d["fixww"], d.get("observer", "default"))
+        record(d["cset"], d["engine"], d["fixww"], d.get("observer", "default"), d.get("format_triggers", False))
         judge("Trace:replay")
         ck.sample(d["entry"])
         return
@@ -216,11 +255,16 @@ def run(ck):
         raise tlc.MachineryError(f"unexpected number of exported cases: {len(cases)}")
     ck.exhaustive = True
     cases.sort(key=lambda c: (c["kind"], c["uid"], c["gid"], c["modes"][0]))
+    # every chunk runs once; the directory it lives in (plain / with format characters), the observer and
+    # whether the ebuild format's pre_merge triggers take part rotate over the chunks
+    bases = ["/p", "/100%", "/%s/{0}", "/p/%(a)s"]
+    observers = ["default", "file", "formatter", "explicit"]
     for tid, c in enumerate(cases):
-        ents = [dict(loc=f"/p/{c['kind']}/{m:05o}", kind=c["kind"], m=m, u=c["uid"], g=c["gid"],
+        b = bases[tid % len(bases)]
+        ents = [dict(loc=f"{b}/{c['kind']}/{m:05o}", kind=c["kind"], m=m, u=c["uid"], g=c["gid"],
                      tgt=f"t{m}" if c["kind"] == "sym" else "-", data=f"d{m}" if c["kind"] == "file" else "-")
                 for m in c["modes"]]
-        record(ents, "install", False)
+        record(ents, "install", False, observers[(tid // len(bases)) % len(observers)], fmt=(tid // 16) % 2 == 1)
         if len(runs) >= 180:
             judge(f"Trace:export-{tid // 180}")
     judge("Trace:export-last")
@@ -230,7 +274,8 @@ def run(ck):
     nrand = ck.pick(60, 1200)
     for n in range(nrand):
         ents = random_entries(r_, r_.randint(1, 30))
-        record(ents, r_.choice(["install", "install", "replace"]), r_.random() < 0.4, r_.choice(["default", "explicit"]))
+        record(ents, r_.choice(["install", "install", "replace"]), r_.random() < 0.4,
+               r_.choice(["default", "explicit", "file", "formatter"]), fmt=r_.random() < 0.5)
         if n == 0:
             ck.sample(dict(direction="code->spec", first_entry=ents[0]))
         if len(runs) >= 400:
